@@ -35,6 +35,11 @@ for dst, src in [(os.path.join(repo, "rscp", "zz_verif_hook.go"), os.path.join(r
                  (os.path.join(repo, "cmd", "e3dc", "zz_verif_wire.go"), os.path.join(root, "harness", "wire.go"))]:
     if os.path.exists(src):
         ov["Replace"][dst] = src
+import re
+present = any(re.search(r"^\s*(var\s+)?ErrRscpInvalidDataType\s*(error\s*)?=", open(os.path.join(repo, "rscp", f), errors="replace").read(), re.M)
+              for f in os.listdir(os.path.join(repo, "rscp")) if f.endswith(".go") and not f.endswith("_test.go"))
+ov["Replace"][os.path.join(repo, "rscp", "zz_verif_sentinel.go")] = os.path.join(
+    root, "harness", "overlay", "zz_verif_sentinel_present.go" if present else "zz_verif_sentinel_absent.go")
 json.dump(ov, open(os.path.join(root, ".build", "overlay.json"), "w"))
 PY
 (cd harness && go build -tags verif -overlay ../.build/overlay.json -o ../.build/verifharness .)
